@@ -248,8 +248,62 @@ class ZSeq:
         return self
 
 
+class PyStream:
+    """in-memory stand-in for an ObjectStream: runs a fluent chain exactly as the user wrote it (real lambdas, source strings or
+    ast.Lambda objects) on a sequence of model objects"""
+
+    def __init__(self, seq, env):
+        self.seq, self.env = seq, env
+
+    def _fn(self, f):
+        if callable(f):
+            return f
+        if isinstance(f, str):
+            return eval(f.strip(), dict(self.env))
+        if isinstance(f, ast.AST):
+            return eval(compile(ast.fix_missing_locations(ast.Expression(copy.deepcopy(f))), "<lambda ast>", "eval"), dict(self.env))
+        raise TypeError(f)
+
+    def Select(self, f):
+        return PyStream(self.seq.Select(self._fn(f)), self.env)
+
+    def Where(self, f):
+        return PyStream(self.seq.Where(self._fn(f)), self.env)
+
+    def SelectMany(self, f):
+        return PyStream(self.seq.SelectMany(self._fn(f)), self.env)
+
+    def MetaData(self, d):
+        return self
+
+    def QMetaData(self, d):
+        return self
+
+    def _res(self, tag, *lits):
+        return ("Result", tag, self.seq, tuple(repr(x) for x in lits))
+
+    def AsAwkwardArray(self, columns=[]):
+        return self._res("ResultAwkwardArray", [columns] if isinstance(columns, str) else columns)
+
+    def AsPandasDF(self, columns=[]):
+        return self._res("ResultPandasDF", [columns] if isinstance(columns, str) else columns)
+
+    def AsROOTTTree(self, filename, treename, columns=[]):
+        return self._res("ResultTTree", [columns] if isinstance(columns, str) else columns, treename, filename)
+
+    def AsParquetFiles(self, filename, columns=[]):
+        return self._res("ResultParquet", [columns] if isinstance(columns, str) else columns, filename)
+
+
 def norm(v):
     "normal form for comparing results: sequences and positional records become tuples, records plain dicts"
+    import dataclasses
+    if isinstance(v, PyStream):
+        return norm(v.seq)
+    if dataclasses.is_dataclass(v) and not isinstance(v, type):
+        return {f.name: norm(getattr(v, f.name)) for f in dataclasses.fields(v)}
+    if isinstance(v, tuple) and hasattr(v, "_fields"):
+        return {k: norm(x) for k, x in zip(v._fields, v)}
     if isinstance(v, (LSeq, ZSeq, list)) or inspect.isgenerator(v):
         return tuple(norm(x) for x in v)
     if isinstance(v, tuple):
@@ -272,6 +326,10 @@ class _DictToRec(ast.NodeTransformer):
 def run(tree, env):
     """evaluate a query AST with CPython.  -> ('ok', normalised value) | ('err', exception repr)"""
     t = _DictToRec().visit(copy.deepcopy(tree))
+    for n in ast.walk(t):
+        # a missing expression context is a well-formedness matter (C18), not a semantic one: read it as Load
+        if isinstance(n, (ast.Name, ast.Attribute, ast.Subscript, ast.Tuple, ast.List, ast.Starred)) and not hasattr(n, "ctx"):
+            n.ctx = ast.Load()
     code = compile(ast.fix_missing_locations(ast.Expression(t)), "<query>", "eval")
     env = dict(env)
     env["__Rec"] = Rec
